@@ -39,6 +39,27 @@ CLAIMS = {
  "C15": ("Coq theorems on the bound formula REGENERATED from src/lib.rs: no overflow below 2^56, equals max(128+1.1n, 128+n+5(n/31744+1)), monotone, and >= the exact level-0 zlib size 2+n+5(floor(n/31745)+1)+4 (the formula is confirmed against implementation and model each run). Adversarial search over content classes/levels records the worst size/bound ratio.",
          "PARTIAL BY NATURE: the worst-case size of Huffman-coded blocks for every input is not proved (needs optimality bounds of length-limited codes).",
          "Coq proof over source-regenerated formula + adversarial search"),
+ "C02": ("Coq theorem on the model of the control plane + stored engine (compress_inner, flush_block, flush_output_buffer, compress_stored; every flag word with FORCE_ALL_RAW_BLOCKS): for every compressor state, chunk, output length and flush mode a call reports consumed <= offered and written <= out_len (loop invariant over the stored engine and the pending-output bookkeeping). Losslessness under (level, strategy, format, window bits) x schedules x sinks is decided per explored schedule by the extracted specification on the concatenated output; level-0 lines are byte-exact against the model.",
+         "PARTIAL: engines above level 0 (match finders, Huffman coder) are not modelled; the forall round-trip statement (T_frame o format round trip) is open.",
+         "Coq invariant proof on the control-plane model + extracted-spec oracle + differential"),
+ "C07": ("Coq theorem on M_inf: suspend/resume of the bit reader - if read_bits starves on a prefix of the input, resuming from the saved state with the rest equals reading the whole input at once, for every state, bit count, continuation and flag words (base case of T_sim). The property is decided per explored stream by comparing every single cut point (directed corpus up to 1300 bytes), byte-wise feeding, budget sweeps and random partitions with each other within flat / ring / inflate(), plus the model line by line.",
+         "PARTIAL: the lift to the whole automaton (T_sim) is open.",
+         "Coq proof (resume lemma) + exhaustive cut-point differential"),
+ "C12": ("Coq theorem on the specification: the marker a sync/full flush ends with (000, zero padding, 00 00 FF FF) is read by the RFC 1951 spec as one empty non-final stored block ending byte-aligned, at every bit alignment and for every continuation. Per explored flush point (premises of the property checked literally) the spec's prefix decoder must decode the bytes emitted so far to all input so far, find the marker, and - after a full flush - decode the remainder on its own; NoSync;Sync == Sync. Level-0 bytes are byte-exact against the model.",
+         "PARTIAL: that the compressor emits the marker / clears history is decided per run, not proved on the model yet.",
+         "Coq proof on the spec + spec prefix-decoder oracle + level-0 model differential"),
+ "C17": ("Coq theorems: the shim's accounting around a stream call (pointer advance = drop in avail = rise in the wrapping 64-bit total, never beyond what was available; model of lib_oxide.rs), and on functions REGENERATED from the source the flush-value mapping (anything outside 0..4 => MZ_PARAM_ERROR) and the window-bits validation (|w| = 15 only). mz_deflate/mz_inflate are compared call by call with deflate()/inflate() (status, consumed, written, bytes, adler), all caller buffers flush against PROT_NONE guard pages; misuse table (null stream/buffers/dest_len, other-kind stream, allocators, bad method/mem_level/window_bits/flush/level, ended streams); one-call helpers vs Rust vector functions.",
+         "PARTIAL BY NATURE: that the unsafe slice constructions, Box hand-offs and catch_unwind behave like the model's regions is Rust/OS semantics (root crate uses panic=abort); exercised, not proved.",
+         "Coq proof of the accounting/mapping + guard-page differential against the Rust API"),
+ "C18": ("Determinism is definitional (models are Coq functions). Coq theorems on the models: CompressorOxide::reset == freshly constructed compressor (record equality); ZeroReset/FullReset restore every wrapper field and re-init the decoder; MinReset REFUTED with a concrete witness (known finding F3). Per run: random histories (cut streams, flushes, corrupt input, errors, interrupted Finish) then reset then a different stream, compared with fresh objects for InflateState x 3 policies, DecompressorOxide::init, CompressorOxide::reset, mz_deflateReset.",
+         "PARTIAL: that init() hides every stale decoder field (liveness relation) is decided per explored history, not proved.",
+         "Coq proof/refutation on the models + reset-vs-fresh differential"),
+ "C19": ("The model has no notion of a snapshot: the correspondence requires the implementation, with the decoder replaced before EVERY call by its clone / JSON round trip / MessagePack round trip, to produce the model's lines. Coq theorems on the model of the block-boundary record: it captures exactly state, pending bits (<8), header bytes and running checksum, and the rebuilt decoder agrees on them. Per run: rebuild at every boundary from record + last 32 KiB (older output zeroed) vs uninterrupted; exactly one stop per non-final block; pending bits == top bits of the last consumed byte.",
+         "PARTIAL: derive macros / rmp-serde / serde_json are outside any model; deadness of the other fields at a boundary is decided per run.",
+         "snapshot-at-every-call differential against the executable model + Coq lemma on the boundary record"),
+ "C20": ("Coq theorems evaluated by the kernel on the CURRENT sources (regenerated into coq/gen/GenSources.v each run): no `unsafe` token outside comments/literals in any .rs file under miniz_oxide/src (compiled-in or not), lib.rs carries #![forbid(unsafe_code)] and the no_std cfg_attr; scanner sanity Examples. Compiler verdicts per run: cargo rustc -F unsafe_code for 8 feature sets, a #![no_std] no-alloc user crate, Send+Sync+Clone+'static assertions on the public state types; scanner and compiler verdicts must agree.",
+         "PARTIAL BY NATURE: feature-matrix builds and auto-trait resolution are facts about rustc; the scanner's relational soundness lemma is not proved (only its discrimination Examples).",
+         "kernel-evaluated source scan + rustc feature-matrix correspondence"),
  "C16": ("Coq theorems (closed): Adler-32 and CRC-32 as defined by RFC 1950 / ISO 3309 compose over any split; the extracted definitions are the oracle for the exported update functions (scalar and simd builds, debug and release), the C exports (null pointer, 64-bit high bits) and the running checksums of compressor, decoder and mz_stream.adler after every call.",
          "adler2 / simd-adler32 / crc32fast kernels are third-party and tied by differential only.",
          "Coq proof of the composition laws + extracted-spec differential"),
